@@ -12,7 +12,7 @@ ID = "C08"
 TITLE = "Sort-by-value ordering is monotone in the requested measure"
 TEMPLATES = ["cat|cat", "cat|cat", "cat|mr", "mr|cat", "mr|mr", "cat_date|cat", "cat|cat_date",
              "cai|cac", "cac|cai", "cat", "mr", "cat_date", "numarr|cat", "numarr",
-             "cat|cat|cat", "mr|cat|cat", "cat|binned", "text|cat"]
+             "cat|cat|cat", "mr|cat|cat", "cat|binned", "text|cat", "mr", "mr", "numarr"]
 
 PUBLIC_2D = {
     "col_base_unweighted": "column_unweighted_bases", "col_base_weighted": "column_weighted_bases",
@@ -78,7 +78,7 @@ KWS = sorted(PUBLIC_STRAND)
 
 
 def units(tier, seed):
-    n = 1800 if tier == "quick" else 40000
+    n = 2400 if tier == "quick" else 40000
     return [{"i": i, "seed": seed} for i in range(n)]
 
 
@@ -92,6 +92,18 @@ def make_case(unit):
     sizes = [g.r.randint(3, 6) for _ in range(nparts)]
     facets = cases.random_facets(g, template, N, sizes=sizes, p_zero=0.2, numeric="some")
     cases.entangle_some(g, facets)
+    if template == "mr" and g.chance(0.7):
+        # items with very different bases and non-degenerate shares: the orders by stddev, by
+        # stderr, by share and by base then all differ from one another
+        N = g.pick([20, 30, 45, 60])
+        v = g.mr(N, n_items=sizes[0])
+        for s_ in range(v.state.shape[1]):
+            pm = g.pick([0.0, 0.3, 0.6, 0.85])
+            ps = g.r.uniform(0.12, 0.88)
+            for i_ in range(N):
+                v.state[i_, s_] = sim.MIS if g.r.random() < pm else (
+                    sim.SEL if g.r.random() < ps else sim.OTH)
+        facets = [("mr", v)]
     tr = {}
     if g.chance(0.7):
         cases.attach_insertions(g, facets, tr, hide_some=False, n=g.r.randint(2, 4))
